@@ -6,3 +6,12 @@ ASSUMPTIONS = list(ws_common.ASSUMPTIONS)
 
 def build(reg):
     ws_units.build(reg)
+
+
+def extra_checks(tier, seed):
+    """lemmas about spec functions used as hints in this property's VCs"""
+    from pyvc.spec_tools import solve
+    out = []
+    for name, (hyps, goal) in ws_common.ws_lemma_obligations():
+        out.append(solve("%s/lemma/" % __name__.split(".")[-1].upper() + name, hyps, goal, 20000))
+    return out
